@@ -321,6 +321,7 @@ func chosencasesLoadAmmo(t *tr, pkg *packages.Package) string {
 //
 // Anything else makes gen fail.
 type chosencasesLF struct {
+	bare   bool // round 6: translate returned values by retBare
 	x      *chosencasesCtx
 	pkg    *packages.Package
 	errObj types.Object          // the `err` of `ammos, err := p.Decoder.LoadAmmo(ctx)`
